@@ -25,7 +25,7 @@ VALID = {
 }
 BAD = {'integer': ['bad!', '1.5', 'x12', '--3', True, False, {'f': '1.0'}], 'number': ['bad!', '1,5x', 'one', True], 'boolean': ['maybe', 'yes!', '2', 1, 0, {'f': '1.0'}], 'date': ['31/01/2020', '2020-13-45', 'bad!'],
        'time': ['25:00:00', 'noon'], 'datetime': ['2020-01-31', 'bad!'], 'year': ['20x0', 'bad!'], 'array': ['{"a": 1}', 'bad!', '[1,'], 'object': ['[1]', 'bad!']}
-POLICIES = ['raise', 'drop', 'ignore', 'clear', 'custom4', 'custom5', 'default']
+POLICIES = ['raise', 'drop', 'ignore', 'clear', 'custom4', 'custom5', 'custom5d', 'custom5c', 'default']
 
 
 def field_desc(f):
@@ -69,7 +69,20 @@ def _run(payload, sub):
     def h5(res_name, row, i, e, field):
         calls.append([res_name, i, getattr(field, 'name', None), type(e).__name__])
         return answers[(len(calls) - 1) % len(answers)]
-    on_error = {'raise': SV.raise_exception, 'drop': SV.drop, 'ignore': SV.ignore, 'clear': SV.clear, 'custom4': h4, 'custom5': h5, 'default': None}[pol]
+
+    def h5d(res_name, row, i, e, field=None):
+        # the fifth parameter is optional in the handler's own signature: it is still a five-argument handler
+        calls.append([res_name, i, getattr(field, 'name', None), type(e).__name__])
+        return answers[(len(calls) - 1) % len(answers)]
+
+    def h5c(res_name, row, i, e, field=None):
+        # a hand-written clear policy: nulls the offending cell and keeps the row
+        calls.append([res_name, i, getattr(field, 'name', None), type(e).__name__])
+        if field is not None:
+            row[field.name] = None
+            return True
+        return False
+    on_error = {'raise': SV.raise_exception, 'drop': SV.drop, 'ignore': SV.ignore, 'clear': SV.clear, 'custom4': h4, 'custom5': h5, 'custom5d': h5d, 'custom5c': h5c, 'default': None}[pol]
     links = [DF.load(({'resources': resources}, iters), strip=False)]
     kw = {} if pol == 'default' else {'on_error': on_error}
     if step['kind'] == 'validate':
@@ -110,7 +123,7 @@ class C14(Prop):
     TECHNIQUE = 'deterministic simulation with data-plane fault injection (corrupt-cell at seeded sites) and a fault-free twin run as differential oracle; Table Schema\'s own Field.cast_value as the cast reference'
     SIMTIME_UNIT = 'pairs of runs (fault-free twin + faulted run), each forked'
     RULE = ('one evaluation = 1-2 resources (0-12 rows) whose checked cells are valid lexical or native values of integer / number / boolean / date / time / datetime / year / string / array / object '
-            '(options: date format, minimum, required, transform), step = validate() or set_type by name / regex / selected resource, policy in {raise, drop, ignore, clear, custom 4-arg, custom 5-arg, default}; '
+            '(options: date format, minimum, required, transform), step = validate() or set_type by name / regex / selected resource, policy in {raise, drop, ignore, clear, custom 4-arg, custom 5-arg, custom 5-arg whose fifth parameter has a default, hand-written clear, default}; '
             'fault-free twin R0, then a run with 0-4 cells replaced by invalid lexical values (several fields of one row included; null into a required field). '
             'Non-trivial = at least one corrupted cell; distinct = distinct (step, policy, corrupted types, number of sites, site positions first/middle/last).')
     ASSUMPTIONS = ['"Table Schema\'s cast" = tableschema.Field(descriptor, missing_values=[""]).cast_value', 'rows are observed through datastream() (the step\'s raw output)']
@@ -329,14 +342,14 @@ class C14(Prop):
             decisions = {}
             for n, s in enumerate(order):
                 a = answers[n % len(answers)]
-                want_calls.append([sc['tables'][s[0]]['name'], s[1], s[2] if eff == 'custom5' else None])
+                want_calls.append([sc['tables'][s[0]]['name'], s[1], s[2] if eff in ('custom5', 'custom5d', 'custom5c') else None])
                 decisions.setdefault((s[0], s[1]), []).append(a)
             got_calls = [c[:3] for c in R1['calls']]
             if got_calls != want_calls:
                 ctx.violation('handler-calls', eff, 'custom handler calls %r, expected one call per offending (row, field) in row-major order: %r; %s' % (got_calls, want_calls, desc))
             if any(c[3] != 'CastError' for c in R1['calls']):
                 ctx.violation('handler-calls', 'exception', 'custom handler received %r instead of a CastError; %s' % ([c[3] for c in R1['calls']], desc))
-            exp = expect_rows(lambda ti, ri: all(decisions[(ti, ri)]))
+            exp = expect_rows(lambda ti, ri: all(decisions[(ti, ri)])) if eff != 'custom5c' else expect_rows(lambda ti, ri: True, cleared=True)
         for ti, t in enumerate(sc['tables']):
             got, want = R1['rows'][ti], exp[ti]
             gid, wid = [g.get('id') for g in got], [w.get('id') for w in want]
